@@ -505,7 +505,6 @@ impl Data {
         let mut variants = vec![];
 
         if data_type.constructors.len() == 1
-            && data_type.constructors[0].sugar
             && data_type
                 .decorators
                 .iter()
@@ -539,14 +538,12 @@ impl Data {
                 });
             }
 
-            let decorators = if constructor.sugar {
-                &data_type.decorators
-            } else {
-                &constructor.decorators
-            };
-
-            let index = decorators
+            // Same lookup as the code generator's: a tag on the constructor, else one on
+            // the type itself (whether or not the type is written with the record sugar).
+            let index = constructor
+                .decorators
                 .iter()
+                .chain(data_type.decorators.iter())
                 .find_map(|decorator| {
                     if let DecoratorKind::Tag { value, .. } = &decorator.kind {
                         Some(*value)
